@@ -424,7 +424,7 @@ def generate(rng, tier):
 CRASH_BUDGET = {"n": 0}
 
 
-def run_lines(binary, lines, chunk=120, workers=4):
+def run_lines(binary, lines, chunk=120, workers=4, force=False):
     """feed case lines in groups; once more than 12 crashed / hanging cases were seen in this check, the remaining groups are
     not run any more (their answers are SKIPPED): the violation is established and a hanging implementation must not cost hours"""
     groups = [("G", lines[i:i + chunk]) for i in range(0, len(lines), chunk)]
@@ -432,7 +432,7 @@ def run_lines(binary, lines, chunk=120, workers=4):
     wave = workers * 2
     for w in range(0, len(groups), wave):
         gs = groups[w:w + wave]
-        if CRASH_BUDGET["n"] > 12:
+        if CRASH_BUDGET["n"] > 12 and not force:
             for g in gs:
                 res += ["SKIPPED"] * len(g[1])
             continue
@@ -568,6 +568,12 @@ def check(ctx, replay=None):
                 res.evaluations += 1
                 if a == "SKIPPED":
                     continue
+                if pb is None or (zb is not None and zb != pb):
+                    # confirm on fresh processes (a transient harness failure must not become a violation)
+                    a = run_lines(bins[c], [line], workers=1, force=True)[0]
+                    pb = sorted(tuple(t.split(",")) for t in a[5:].split(";")) if a.startswith("bars=") and a != "bars=-" else ([] if a == "bars=-" else None)
+                    zl = run_lines(bins[c], [case_line("Z", -1, 0, s["ops"])], workers=1, force=True)[0]
+                    zb = None if (zl.startswith(("CRASH", "DIED")) or "EXC" in zl) else final_bars_Z(zl)
                 if pb is None:
                     report("P:persistence-matrix-failed:" + s["style"], s, "P", dm, sh, len(s["ops"]), "the persistence matrix (C05 substrate) did not "
                            "deliver a barcode for an insertion-only sequence: " + a[:60], "-", a[:80], c)
@@ -613,6 +619,16 @@ def check(ctx, replay=None):
             res.traces_validated += 1
             res.evaluations += len(osegs)
             if v:
+                # a genuine disagreement is deterministic: confirm it on a fresh process with this single case (a transient
+                # failure of the harness process on a loaded machine must not become a violation)
+                a2 = run_lines(bins[c], [line], workers=1, force=True)[0]
+                v2 = compare(mode, a2, osegs)
+                if not v2:
+                    res.count("transient harness failure, not reproduced on re-run (ignored)")
+                    if mode == "Z":
+                        zfinal[(si, c)] = final_bars_Z(a2)
+                v = v2
+            if v:
                 i, field, exp, obs = v
                 cls = {"Z": "Zigzag_persistence", "F": "Filtered_zigzag_persistence", "S": "Filtered_zigzag_persistence_with_storage"}[mode]
                 kind = "%s:%s:%s" % (mode, field, s["style"])
@@ -649,6 +665,8 @@ def check(ctx, replay=None):
                 if "SKIPPED" in (a, b):
                     continue
                 if a.startswith(("CRASH", "DIED")) or b.startswith(("CRASH", "DIED")) or "EXC" in a or "EXC" in b:
+                    a, b = run_lines(bins[c], [rl[2 * j], rl[2 * j + 1]], workers=1, force=True)      # confirm on a fresh process
+                if a.startswith(("CRASH", "DIED")) or b.startswith(("CRASH", "DIED")) or "EXC" in a or "EXC" in b:
                     report("Z:reversal:crash-or-exception:" + s["style"], dict(ops=A, style=s["style"]), "Z", -1, 0, n, "crash or exception on a full zigzag or its reversal", "-", (a + " // " + b)[:100], c)
                     continue
                 ba, bb = final_bars_Z(a), final_bars_Z(b)
@@ -664,11 +682,11 @@ def check(ctx, replay=None):
     def fails(kind, case):
         ol = case["ops"]
         line = case_line(case["mode"], case["dimmax"], case["shortest"], ol)
-        o = run_lines(orc, [line], workers=1)[0]
+        o = run_lines(orc, [line], workers=1, force=True)[0]
         osegs, flags = split_oracle(o)
         if osegs is None or flags.get("valid") != "1":
             return None
-        a = run_lines(bins[case["col"]], [line], workers=1)[0]
+        a = run_lines(bins[case["col"]], [line], workers=1, force=True)[0]
         v = compare(case["mode"], a, osegs)
         if not v:
             return None
